@@ -84,6 +84,10 @@ def forms_for(n, sols, rng, which):
             out.append(("search", dict(src=src_search(n, sols))))
         elif w == "true":
             out.append(("eq==True", dict(src=src_eq(n, sols), element=("bool", True))))
+        elif w == "false":
+            # the predicate of the COMPLEMENT, searched for the value False: the solutions are sols again
+            comp = [v for v in range(1 << n) if v not in sols]
+            out.append(("eq==False", dict(src=src_eq(n, comp), element=("bool", False))))
         elif w == "oraclize":
             if len(sols) == 1 and rng.random() < 0.5:
                 c = rng.randrange(1 << n)
@@ -117,7 +121,7 @@ def grover_cases(tier, rng):
         for M in range(1, N // 4 + 1):
             allsets = list(itertools.combinations(range(N), M))
             for sols in rng.sample(allsets, min(len(allsets), 3 if tier == "quick" else 12)):
-                add(n, sols, ["dnf", "anf", "fast", "search", "true"])
+                add(n, sols, ["dnf", "anf", "fast", "search", "true", "false"])
     # stratified samples on 4..5 bits: every M in 1..N/4
     per = 2 if tier == "quick" else 16
     for n in (4, 5):
@@ -134,7 +138,7 @@ def grover_cases(tier, rng):
     # conjunctions of positive literals: the oracle is one multi-controlled X without scratch qubits,
     # the other forms of the same set have ancillas
     for n, sols in ((4, [15]), (5, [31]), (5, [15, 31]), (4, [7, 15])):
-        add(n, sols, ["eq", "oraclize", "search"])
+        add(n, sols, ["eq", "oraclize", "search"] + (["false"] if n == 4 else []))
     # the test-suite's shape: a two-component argument (decoded as a tuple of Qints)
     cases.append(dict(kind="grover", n=4, sols=[3, 6, 9, 12], n_matching=4, form="tuple-of-qint", opt="default",
                       src="def test(k: Tuple[Qint[2], Qint[2]]) -> bool:\n    return k[0] + k[1] == 3"))
